@@ -155,7 +155,7 @@ impl Uni {
     }
 
     /// Offer `c` to the real window; returns (verdict, expectation).
-    fn offer(&mut self, c: u32) -> (Result<bool, String>, Expect) {
+    fn offer(&mut self, c: u32) -> (Result<bool, common::Panic>, Expect) {
         let exp = self.refm.expect(c, self.encrypted());
         let enc = self.encrypted();
         let sess = &mut self.sess;
@@ -282,7 +282,7 @@ fn check_uni_step(
     match got {
         Err(msg) => {
             report.violation(
-                format!("C04:{}:panic:{}", mode, common::panic_class(&msg)),
+                format!("C04:{}:panic:{}", mode, msg.class()),
                 format!("post_recv({}) panicked after {:?}: {}", c, hist, msg),
                 replay,
             );
@@ -416,7 +416,7 @@ fn check_grp_step(s: &mut Grp, op: GOp, hist: &[GOp], report: &mut Report) -> bo
     let b = match got {
         Err(msg) => {
             report.violation(
-                format!("C04:group:panic:{}", common::panic_class(&msg)),
+                format!("C04:group:panic:{}", msg.class()),
                 format!("GroupCtrStore::post_recv panicked: {}", msg),
                 replay,
             );
